@@ -18,7 +18,14 @@ import (
 const verbose = false
 const verboseGeoJSON = false
 
-func sightline(context *api.Context, from b6.Geometry, radius float64) (b6.Area, error) {
+func sightline(context *api.Context, from b6.Geometry, radius float64) (area b6.Area, err error) {
+	defer func() {
+		// Sightline panics when it can't build a valid loop, eg for a
+		// degenerate origin; that mustn't take the server down.
+		if r := recover(); r != nil {
+			area, err = b6.InvalidArea{}, fmt.Errorf("%v", r)
+		}
+	}()
 	if centroid, ok := b6.Centroid(from); ok {
 		return b6.AreaFromS2Polygon(Sightline(centroid, b6.MetersToAngle(radius), context.World)), nil
 	}
